@@ -210,6 +210,58 @@ fn supervisor(a: &Args) -> i32 {
     let hang_secs: u64 = std::env::var("VERIF_HANG_SECS").ok().and_then(|s| s.parse().ok()).unwrap_or(600);
     let end = run_child(&[], &dir, hang_secs);
     let code = match end {
+        ChildEnd::Done(0) if a.replay.is_none() && a.only.is_none() && std::env::var("VERIF_SKIP_FRESH").is_err() => {
+            // SimWorld shares one process between simulated processes: process-wide state in the code
+            // under test (a one-shot static flag) would be seen by the first run only.  A slice of the
+            // runs is therefore repeated with one fresh worker process per run.
+            let k: u64 = if a.tier == Tier::Thorough { 2000 } else { 200 };
+            let n = a.runs.unwrap_or_else(|| p.runs(a.tier)).min(k);
+            let next = std::sync::atomic::AtomicU64::new(0);
+            let bad = std::sync::Mutex::new(Vec::<(u64, String)>::new());
+            std::thread::scope(|s| {
+                for _ in 0..runner::workers() {
+                    s.spawn(|| loop {
+                        let i = next.fetch_add(1, std::sync::atomic::Ordering::Relaxed);
+                        if i >= n || !bad.lock().unwrap().is_empty() {
+                            break;
+                        }
+                        let me = std::env::current_exe().expect("exe");
+                        let args: Vec<String> = std::env::args().skip(1).collect();
+                        let o = std::process::Command::new(me)
+                            .args(&args)
+                            .arg("--only")
+                            .arg(i.to_string())
+                            .env("VSIM_CHILD", "1")
+                            .env("VSIM_FRESH_REPORT", "1")
+                            .env("VERIF_SKIP_REAL", "1")
+                            .env_remove("VSIM_PROGRESS")
+                            .output();
+                        if let Ok(o) = o {
+                            let text = String::from_utf8_lossy(&o.stdout).into_owned();
+                            if o.status.code() == Some(1) && text.contains("VIOLATION property=") {
+                                bad.lock().unwrap().push((i, text));
+                            }
+                        }
+                    });
+                }
+            });
+            let mut b = bad.into_inner().unwrap();
+            b.sort();
+            match b.into_iter().next() {
+                Some((_, text)) => {
+                    for l in text.lines() {
+                        if !l.starts_with(DONE_MARKER) && !l.starts_with("run ") {
+                            println!("{}", l);
+                        }
+                    }
+                    1
+                }
+                None => {
+                    println!("fresh-process slice: {} runs, one worker process each: no violation", n);
+                    0
+                }
+            }
+        }
         ChildEnd::Done(c) => c,
         ChildEnd::Died(_) | ChildEnd::Hung(_) => {
             let what = match &end {
@@ -276,7 +328,23 @@ fn real_main() -> i32 {
             runner::progress::set(i);
             let out = p.run(&sc);
             runner::progress::set(runner::progress::IDLE);
-            println!("run {}: violation={:?}", i, out.violation.map(|v| v.clause));
+            println!("run {}: violation={:?}", i, out.violation.as_ref().map(|v| v.clause.clone()));
+            if let (Some(v), true) = (&out.violation, std::env::var("VSIM_FRESH_REPORT").is_ok()) {
+                // fresh-process slice: report directly (the violation may exist only in the first run of a process)
+                let dir = format!("{}/{}", a.replay_dir, p.id());
+                std::fs::create_dir_all(&dir).ok();
+                let path = format!("{}/{}-{}-fresh.json", dir, a.seed, i);
+                let mut j = runner::replay_json(&sc, v, &out, 0);
+                j.put("fresh_process", J::Bool(true));
+                std::fs::write(&path, j.pretty()).expect("write replay");
+                println!("  clause   : {}", v.clause);
+                println!("  expected : {}", runner::truncate(&v.expected, 600));
+                println!("  observed : {}", runner::truncate(&v.observed, 600));
+                println!("  program  : {}", runner::truncate(&sc.source(), 600));
+                println!("  note     : found in the fresh-process slice (each run in a process of its own)");
+                println!("VIOLATION property={} replay={}", p.id(), path);
+                return 1;
+            }
             return 0;
         }
         return check(p.as_ref(), &a);
